@@ -43,3 +43,27 @@ Proof.
     [discriminate|exact H].
 Qed.
 Print Assumptions C15_wrong_password_partial.
+
+(* ---------- writer side: what an encrypted entry puts into the archive.
+   Closing a ZipCrypto-encrypted stored entry on a well-behaved sink (keys k = derived from the password when the
+   entry was started, the 12-byte header placeholder and the content buffered): the payload in the archive is EXACTLY
+   the PKWARE encryption under k of  11 header bytes ++ [high byte of CRC-32(content)] ++ content; the local header is
+   patched to CRC, 12 + |content|, |content|; the record kept for the directory carries the same values; and
+   decrypting the payload with the same keys returns the check byte the reader tests and the content. *)
+From ZipV Require Import Gen.CompressionGen Model.Writer Proofs.WriterIdeal Proofs.WriterEntry Proofs.EncryptedEntry.
+Theorem C15_written_ciphertext : forall enc crc s front f d content prev k,
+  enc_open s front f d content prev k -> 12 + len content <= Gen.SpecGen.ZIP64_BYTES_THR ->
+  exists s',
+    finish_file enc crc s = (s', Ok tt) /\
+    ws_inner s' = WStorer (at_end (front ++ lh_bytes f d (crc content) (12 + len content) (len content) ++ zc_payload crc k content)) /\
+    ws_files s' = prev ++ [wf_set_sizes f (crc content) (len content) (12 + len content)] /\
+    ws_to_extra s' = false /\ ws_raw s' = false /\ ws_to_file s' = false.
+Proof. exact finish_file_encrypted. Qed.
+Print Assumptions C15_written_ciphertext.
+
+Theorem C15_written_decrypts : forall crc k content,
+  exists k', zc_decrypt k (zc_payload crc k content) = (k', zc_plain crc content) /\
+             b2n (nth 11 (zc_plain crc content) x00) = N.shiftr (crc content) 24 mod 256 /\
+             skipn 12 (zc_plain crc content) = content.
+Proof. exact zc_payload_decrypts. Qed.
+Print Assumptions C15_written_decrypts.
